@@ -77,6 +77,11 @@ func genPhases(w *sim.World) []*phase {
 				ph.pts = append(ph.pts, prev.pts[j])
 				continue
 			}
+			if prev != nil && prev.label == ph.label && j < len(prev.pts) && w.Choose(sim.KOp, 2) == 1 {
+				// same choice point, only its bound changes (a set that grew or shrank)
+				ph.pts = append(ph.pts, point{id: prev.pts[j].id, bound: uint(1 + w.Choose(sim.KOp, 6))})
+				continue
+			}
 			ph.pts = append(ph.pts, point{id: fmt.Sprintf("p%d.%d.%d", i, j, w.Choose(sim.KOp, 2)), bound: uint(1 + w.Choose(sim.KOp, 6))})
 		}
 		if keep > 0 && keep >= k {
